@@ -6,6 +6,8 @@ CONSTANTS
   PublishBeforeInit = FALSE
   ContinueAfter405 = FALSE
   ApplyNoBackup = FALSE
+  NoReloadAfterRestore = FALSE
+  MetricsToDefaultPath = FALSE
 SPECIFICATION TraceSpec
 CONSTRAINT HWM
 POSTCONDITION Post
